@@ -1051,6 +1051,7 @@ inductive Op
   | udplisten                           -- the UDP listener starts: it allocates its first request object and blocks
   | udpnas (ip : Bytes)                 -- a source address becomes known to the harness
   | udpsend (nas : Nat) (pkt : Bytes)   -- a datagram from source `nas`: association handling, `radsrv`, next object allocated
+  | tcpconn (src : Bytes) (script : List Stream.Ev)   -- a whole TCP connection from address `src` whose peer follows the script
 
 /-- one operation -/
 def step (w : World) : Op → World
@@ -1072,6 +1073,7 @@ def step (w : World) : Op → World
   | .udplisten => udpLoopTop w
   | .udpnas ip => { w with nas := w.nas ++ [ip] }
   | .udpsend n pkt => udpLoopTop (udpRecv w n pkt).1
+  | .tcpconn src script => tcpConn w src script
 
 
 end Rsp.World
